@@ -517,3 +517,349 @@ Proof.
   split; [exact Hc|]. split; [exact Hacc|]. split; [rewrite Ht; exact Hrun|].
   exists t. split; [exact Hg | rewrite Ht, Hid; reflexivity].
 Qed.
+
+(** * the nested listing *)
+(** string facts for reading the display back ([strip_dot], [strip_star]) *)
+Lemma rev_aux_app a b acc : string_rev_aux (a ++ b) acc = string_rev_aux b (string_rev_aux a acc).
+Proof. revert acc. induction a as [|ch a IH]; intros acc; [reflexivity|]. cbn. apply IH. Qed.
+
+Lemma rev_aux_rev s : forall acc acc2,
+  string_rev_aux (string_rev_aux s acc) acc2 = string_rev_aux acc (s ++ acc2)%string.
+Proof. induction s as [|ch s IH]; intros acc acc2; [reflexivity|]. cbn. rewrite IH. reflexivity. Qed.
+
+Lemma str_app_nil_r (s : string) : (s ++ "")%string = s.
+Proof. induction s as [|ch s IH]; [reflexivity|]. cbn. rewrite IH. reflexivity. Qed.
+
+Lemma string_rev_involutive s : string_rev (string_rev s) = s.
+Proof. unfold string_rev. rewrite rev_aux_rev. cbn. apply str_app_nil_r. Qed.
+
+Lemma strip_star_starred k : strip_star (k ++ "*") = k.
+Proof.
+  unfold strip_star. unfold string_rev at 1. rewrite rev_aux_app. cbn [string_rev_aux].
+  fold (string_rev k). apply string_rev_involutive.
+Qed.
+
+(** a name that does not end in '*' *)
+Definition nostar (k : string) : bool :=
+  match string_rev k with String "*" _ => false | _ => true end.
+
+Lemma strip_star_plain k : nostar k = true -> strip_star k = k.
+Proof.
+  unfold nostar, strip_star. destruct (string_rev k) as [|ch r]; [reflexivity|].
+  destruct (Ascii.eqb ch "*") eqn:E.
+  - apply Ascii.eqb_eq in E. subst ch. discriminate.
+  - intros _. destruct ch as [[] [] [] [] [] [] [] []]; try reflexivity. discriminate.
+Qed.
+
+Definition nrel (anc : list string) (s : string) : string :=
+  match anc with [] => s | _ => ("." ++ s)%string end.
+
+Lemma strip_dot_nrel anc s : contains_char "." s = false -> strip_dot (nrel anc s) = s.
+Proof.
+  intros H. unfold nrel. destruct anc; [|reflexivity].
+  destruct s as [|ch s]; [reflexivity|]. cbn [contains_char] in H. apply orb_false_iff in H as [H _].
+  unfold strip_dot. destruct ch as [[] [] [] [] [] [] [] []]; try reflexivity. discriminate.
+Qed.
+
+Lemma strip_dot_nrel_star anc s :
+  contains_char "." s = false -> s <> "" -> strip_dot (nrel anc s ++ "*") = (s ++ "*")%string.
+Proof.
+  intros H Hne. unfold nrel. destruct anc; [|reflexivity].
+  destruct s as [|ch s]; [contradiction|]. cbn [contains_char] in H. apply orb_false_iff in H as [H _].
+  cbn [append]. unfold strip_dot. destruct ch as [[] [] [] [] [] [] [] []]; try reflexivity. discriminate.
+Qed.
+
+Definition ntask_row (anc : list string) (dflt : option string) (ad : bool)
+           (kt : string * taskinfo) : row :=
+  (List.length anc,
+   (if is_default dflt (fst kt) then (nrel anc (fst kt) ++ "*")%string else nrel anc (fst kt)),
+   map (fun a => nrel anc (transform ad a)) (sort_by (fun x => x) (t_aliases (snd kt))),
+   Some (t_id (snd kt))).
+
+Lemma nested_rows_unfold n tasks aliases subs dflt ad cfg anc :
+  nested_rows (Coll n tasks aliases subs dflt ad cfg) anc =
+  map (ntask_row anc dflt ad) (sort_by fst tasks) ++
+  flat_map (fun k => (List.length anc, nrel anc k, [], None) ::
+                     pick (fun sc => nested_rows sc (anc ++ [k])) [] subs k)
+           (sort_by (fun x => x) (akeys subs)).
+Proof.
+  cbn [nested_rows]. f_equal. apply flat_map_ext. intros k. f_equal.
+  induction subs as [|[k' sc] l IH]; [reflexivity|].
+  cbn [pick]. destruct (String.eqb k k'); [reflexivity | exact IH].
+Qed.
+
+(** what the nested display says, in display order: collection path, binding
+    key, task, the task's own aliases *)
+Definition nentry (anc : list string) (ad : bool) (kt : string * taskinfo) : entry :=
+  (anc, fst kt, t_id (snd kt), map (transform ad) (sort_by (fun x => x) (t_aliases (snd kt)))).
+
+Fixpoint nshown (c : coll) (anc : list string) {struct c} : list entry :=
+  match c with
+  | Coll _ tasks _ subs _ ad _ =>
+      map (nentry anc ad) (sort_by fst tasks) ++
+      flat_map (fun k =>
+                  (fix find (l : list (string * coll)) {struct l} : list entry :=
+                     match l with
+                     | [] => []
+                     | (k', sc) :: l' => if String.eqb k k' then nshown sc (anc ++ [k]) else find l'
+                     end) subs)
+               (sort_by (fun x => x) (akeys subs))
+  end.
+
+Lemma nshown_unfold n tasks aliases subs dflt ad cfg anc :
+  nshown (Coll n tasks aliases subs dflt ad cfg) anc =
+  map (nentry anc ad) (sort_by fst tasks) ++
+  flat_map (fun k => pick (fun sc => nshown sc (anc ++ [k])) [] subs k)
+           (sort_by (fun x => x) (akeys subs)).
+Proof.
+  cbn [nshown]. f_equal. apply flat_map_ext. intros k.
+  induction subs as [|[k' sc] l IH]; [reflexivity|].
+  cbn [pick]. destruct (String.eqb k k'); [reflexivity | exact IH].
+Qed.
+
+(** the same entries in the order of the tree *)
+Fixpoint rel_entries (c : coll) (anc : list string) {struct c} : list entry :=
+  match c with
+  | Coll _ tasks _ subs _ ad _ =>
+      map (nentry anc ad) tasks ++
+      (fix go (l : list (string * coll)) : list entry :=
+         match l with
+         | [] => []
+         | (k, sc) :: l' => rel_entries sc (anc ++ [k]) ++ go l'
+         end) subs
+  end.
+
+Lemma rel_entries_unfold n tasks aliases subs dflt ad cfg anc :
+  rel_entries (Coll n tasks aliases subs dflt ad cfg) anc =
+  map (nentry anc ad) tasks ++ flat_map (fun kc => rel_entries (snd kc) (anc ++ [fst kc])) subs.
+Proof.
+  cbn [rel_entries]. f_equal. induction subs as [|[cn sc] l IH]; [reflexivity|].
+  cbn [flat_map fst snd]. rewrite IH. reflexivity.
+Qed.
+
+Lemma nshown_perm : forall c, ns_wf c = true -> forall anc, Permutation (nshown c anc) (rel_entries c anc).
+Proof.
+  induction c as [n tasks aliases subs dflt ad cfg IH] using coll_ind'.
+  intros Hwf anc. destruct (wf_subs_nodup _ _ _ _ _ _ _ Hwf) as [ND Hsubs].
+  rewrite Forall_forall in IH.
+  rewrite nshown_unfold, rel_entries_unfold. apply Permutation_app.
+  - apply Permutation_map, sort_by_perm.
+  - rewrite (flat_map_perm _ _ _ (sort_by_perm (fun x => x) (akeys subs))).
+    rewrite (visit_keys (fun k sc => nshown sc (anc ++ [k]))).
+    + apply flat_map_perm_pointwise. intros kc Hkc. apply IH; [exact Hkc | apply Hsubs; exact Hkc].
+    + apply NoDup_app_r in ND. apply NoDup_app_r in ND. exact ND.
+Qed.
+
+(** keys the nested display can be read back from: no task key ends in '*'
+    (the marker of the default task), and own aliases are dot-free after
+    normalisation *)
+Fixpoint readable (c : coll) : bool :=
+  match c with
+  | Coll _ tasks _ subs _ ad _ =>
+      forallb (fun kt => nostar (fst kt) &&
+                         forallb (fun a => negb (contains_char "." (transform ad a))) (t_aliases (snd kt)))
+              tasks &&
+      (fix go (l : list (string * coll)) : bool :=
+         match l with [] => true | (_, sc) :: l' => readable sc && go l' end) subs
+  end.
+
+Lemma readable_unfold n tasks aliases subs dflt ad cfg :
+  readable (Coll n tasks aliases subs dflt ad cfg) =
+  forallb (fun kt => nostar (fst kt) &&
+                     forallb (fun a => negb (contains_char "." (transform ad a))) (t_aliases (snd kt)))
+          tasks &&
+  forallb (fun kc => readable (snd kc)) subs.
+Proof.
+  cbn [readable]. f_equal. induction subs as [|[k sc] l IH]; [reflexivity|].
+  cbn [forallb snd]. rewrite IH. reflexivity.
+Qed.
+
+Lemma firstn_prefix {A} (l1 l2 cur : list A) :
+  firstn (List.length (l1 ++ l2)) cur = l1 ++ l2 -> firstn (List.length l1) cur = l1.
+Proof.
+  revert cur. induction l1 as [|x l1 IH]; intros cur H; [reflexivity|].
+  destruct cur as [|y cur]; [discriminate|]. cbn in H |- *. injection H as -> H.
+  f_equal. apply IH. exact H.
+Qed.
+
+Lemma firstn_exact {A} (l1 l2 : list A) : firstn (List.length l1) (l1 ++ l2) = l1.
+Proof. induction l1 as [|x l1 IH]; [reflexivity|]. cbn. rewrite IH. reflexivity. Qed.
+
+(** reading the task lines of one collection *)
+Lemma read_task_rows anc dflt ad cur :
+  firstn (List.length anc) cur = anc ->
+  forall l rest,
+  (forall kt, In kt l ->
+     contains_char "." (fst kt) = false /\ fst kt <> "" /\ nostar (fst kt) = true /\
+     forall a, In a (t_aliases (snd kt)) -> contains_char "." (transform ad a) = false) ->
+  nested_shown (map (ntask_row anc dflt ad) l ++ rest) cur =
+  map (nentry anc ad) l ++ nested_shown rest cur.
+Proof.
+  intros Hcur. induction l as [|[k t] l IH]; intros rest Hok; [reflexivity|].
+  destruct (Hok (k, t) (or_introl eq_refl)) as [Hd [Hne [Hns Hal]]]. cbn [fst snd] in *.
+  cbn [map app]. cbn [nested_shown ntask_row r_task r_depth r_name r_aliases fst snd].
+  rewrite Hcur. rewrite IH by (intros kt H; apply Hok; right; exact H).
+  f_equal. unfold nentry. cbn [fst snd]. f_equal; [f_equal; f_equal|].
+  - destruct (is_default dflt k).
+    + rewrite (strip_dot_nrel_star anc k Hd Hne). apply strip_star_starred.
+    + rewrite (strip_dot_nrel anc k Hd). apply strip_star_plain; exact Hns.
+  - rewrite map_map. apply map_ext_in. intros a Ha. apply strip_dot_nrel. apply Hal.
+    apply (Permutation_in a (sort_by_perm (fun x => x) (t_aliases t))). exact Ha.
+Qed.
+
+Lemma assoc_of_key {A} k (l : list (string * A)) :
+  In k (akeys l) -> exists v, assoc k l = Some v /\ In (k, v) l.
+Proof.
+  induction l as [|[k' v'] l IH]; intros H; [contradiction|].
+  cbn [assoc]. destruct (String.eqb k k') eqn:E.
+  - apply String.eqb_eq in E. subst k'. exists v'. split; [reflexivity | left; reflexivity].
+  - destruct H as [H|H]; [cbn [fst] in H; subst k'; rewrite String.eqb_refl in E; discriminate|].
+    destruct (IH H) as [v [Hv HIn]]. exists v. split; [exact Hv | right; exact HIn].
+Qed.
+
+(** reading the nested display of a whole collection: the scopes
+    [nested_shown] reconstructs are the collection paths *)
+Lemma nested_read : forall c, ns_canon c = true -> readable c = true ->
+  forall anc cur rest, firstn (List.length anc) cur = anc ->
+  exists cur', firstn (List.length anc) cur' = anc /\
+    nested_shown (nested_rows c anc ++ rest) cur = nshown c anc ++ nested_shown rest cur'.
+Proof.
+  induction c as [n tasks aliases subs dflt ad cfg IH] using coll_ind'.
+  intros Hcan Hrd anc cur rest Hcur.
+  rewrite ns_canon_unfold in Hcan. apply andb_true_iff in Hcan as [Hkeys Hcsubs].
+  rewrite readable_unfold in Hrd. apply andb_true_iff in Hrd as [Hrt Hrsubs].
+  rewrite forallb_forall in Hkeys, Hcsubs, Hrt, Hrsubs. rewrite Forall_forall in IH.
+  rewrite nested_rows_unfold, nshown_unfold, <- !app_assoc.
+  rewrite (read_task_rows anc dflt ad cur Hcur).
+  2:{ intros [k t] Hkt. apply (Permutation_in _ (sort_by_perm fst tasks)) in Hkt. cbn [fst snd].
+      assert (In k (akeys tasks)) as Hk by (change k with (fst (k, t)); apply in_map; exact Hkt).
+      destruct (key_ok_spec ad k (Hkeys k (in_or_app _ _ _ (or_introl Hk)))) as [_ [Hd Hne]].
+      pose proof (Hrt _ Hkt) as Hr. cbn [fst snd] in Hr. apply andb_true_iff in Hr as [Hns Hal].
+      rewrite forallb_forall in Hal.
+      repeat split; try assumption.
+      intros a Ha. apply negb_true_iff. apply Hal; exact Ha. }
+  assert (forall ks, (forall k, In k ks -> In k (akeys subs)) ->
+          forall cur0 rest0, firstn (List.length anc) cur0 = anc ->
+          exists cur', firstn (List.length anc) cur' = anc /\
+            nested_shown
+              (flat_map (fun k => (List.length anc, nrel anc k, [], None) ::
+                                  pick (fun sc => nested_rows sc (anc ++ [k])) [] subs k) ks ++ rest0) cur0 =
+            flat_map (fun k => pick (fun sc => nshown sc (anc ++ [k])) [] subs k) ks ++
+            nested_shown rest0 cur') as Hblocks.
+  { induction ks as [|k ks IHks]; intros Hks cur0 rest0 Hcur0.
+    - exists cur0. split; [exact Hcur0 | reflexivity].
+    - cbn [flat_map]. rewrite <- !app_assoc. cbn [app].
+      cbn [nested_shown r_task r_depth r_name snd fst]. rewrite Hcur0.
+      assert (In k (akeys subs)) as Hk by (apply Hks; left; reflexivity).
+      destruct (assoc_of_key k subs Hk) as [sc [Has Hkc]].
+      assert (contains_char "." k = false) as Hd.
+      { apply (key_ok_spec ad k), Hkeys. apply in_or_app; right. apply in_or_app; right; exact Hk. }
+      rewrite (strip_dot_nrel anc k Hd), !pick_assoc, Has.
+      destruct (IH _ Hkc (Hcsubs _ Hkc) (Hrsubs _ Hkc) (anc ++ [k]) (anc ++ [k])
+                   (flat_map (fun k0 => (List.length anc, nrel anc k0, [], None) ::
+                                        pick (fun sc0 => nested_rows sc0 (anc ++ [k0])) [] subs k0) ks ++ rest0))
+        as [cur2 [Hcur2 Heq]].
+      { rewrite <- (app_nil_r (anc ++ [k])) at 2. apply firstn_exact. }
+      cbn [snd] in Heq.
+      apply firstn_prefix in Hcur2.
+      destruct (IHks (fun k0 H => Hks k0 (or_intror H)) cur2 rest0 Hcur2) as [cur3 [Hcur3 Heq3]].
+      exists cur3. split; [exact Hcur3|]. etransitivity; [exact Heq|]. rewrite <- app_assoc. f_equal. exact Heq3. }
+  destruct (Hblocks (sort_by (fun x => x) (akeys subs))
+                    (fun k H => Permutation_in k (sort_by_perm (fun x => x) (akeys subs)) H)
+                    cur rest Hcur) as [cur' [Hc' Heq]].
+  exists cur'. split; [exact Hc'|]. rewrite <- app_assoc. f_equal. exact Heq.
+Qed.
+
+(** the nested listing, read back the way the specification reads it, shows
+    exactly the bindings of the tree: collection path, binding key, task and
+    the task's own (normalised) aliases, each once *)
+Theorem nested_listing c :
+  ns_wf c = true -> ns_canon c = true -> readable c = true ->
+  Permutation (nested_shown (nested_rows c []) []) (rel_entries c []).
+Proof.
+  intros Hwf Hcan Hrd.
+  destruct (nested_read c Hcan Hrd [] [] [] eq_refl) as [cur' [_ Heq]].
+  rewrite app_nil_r in Heq. rewrite Heq. cbn [nested_shown]. rewrite app_nil_r.
+  apply nshown_perm; exact Hwf.
+Qed.
+
+(** * the entries are the specification's bindings *)
+Lemma bindings_unfold n tasks aliases subs dflt ad cfg path :
+  bindings (Coll n tasks aliases subs dflt ad cfg) path =
+  map (fun kt => ((path, fst kt, t_id (snd kt),
+                   map fst (filter (fun a => String.eqb (snd a) (fst kt)) aliases)),
+                  opt_str_eqb dflt (Some (fst kt)))) tasks ++
+  flat_map (fun kc => bindings (snd kc) (path ++ [fst kc])) subs.
+Proof.
+  cbn [bindings]. f_equal. induction subs as [|[cn sc] l IH]; [reflexivity|].
+  cbn [flat_map fst snd]. rewrite IH. reflexivity.
+Qed.
+
+(** same place, same key, same task, the same alias names *)
+Definition entry_agrees (a b : entry) : Prop :=
+  fst (fst (fst a)) = fst (fst (fst b)) /\ snd (fst (fst a)) = snd (fst (fst b)) /\
+  snd (fst a) = snd (fst b) /\ (forall x, In x (snd a) <-> In x (snd b)).
+
+Lemma rel_entries_bindings : forall c, ns_wf c = true -> alias_table_own c = true ->
+  forall path, Forall2 entry_agrees (rel_entries c path) (map fst (bindings c path)).
+Proof.
+  induction c as [n tasks aliases subs dflt ad cfg IH] using coll_ind'.
+  intros Hwf Hat path. destruct (wf_subs_nodup _ _ _ _ _ _ _ Hwf) as [ND Hwsubs].
+  assert (NoDup (akeys tasks)) as NDt by (apply (NoDup_app_l _ _ ND)).
+  rewrite alias_table_own_unfold in Hat. apply andb_true_iff in Hat as [Hat Hatsubs].
+  apply andb_true_iff in Hat as [Hbound Honly].
+  rewrite forallb_forall in Hbound, Honly, Hatsubs. rewrite Forall_forall in IH.
+  rewrite rel_entries_unfold, bindings_unfold, map_app. apply Forall2_app.
+  - rewrite map_map. apply Forall2_map_same. intros [k t] Hkt. cbn [fst snd].
+    unfold entry_agrees, nentry. cbn [fst snd]. repeat split.
+    + intros Hx. apply in_map_iff in Hx. destruct Hx as [a [<- Ha]].
+      apply (Permutation_in a (sort_by_perm (fun x => x) (t_aliases t))) in Ha.
+      assert (In (transform ad a, k) (own_pairs ad tasks)) as Hop.
+      { unfold own_pairs. apply in_flat_map. exists (k, t). split; [exact Hkt|].
+        cbn [fst snd]. apply in_map_iff. exists a. split; [reflexivity | exact Ha]. }
+      pose proof (Hbound _ Hop) as Hb. cbn [fst snd] in Hb.
+      destruct (assoc (transform ad a) aliases) as [k'|] eqn:Ea; [|discriminate].
+      cbn in Hb. apply String.eqb_eq in Hb. subst k'. apply assoc_In in Ea.
+      apply in_map_iff. exists (transform ad a, k). split; [reflexivity|].
+      apply filter_In. split; [exact Ea | cbn [snd]; apply String.eqb_refl].
+    + intros Hx. apply in_map_iff in Hx. destruct Hx as [[x' k'] [E Hx]]. cbn [fst] in E. subst x'.
+      apply filter_In in Hx. destruct Hx as [Hx Hk]. cbn [snd] in Hk. apply String.eqb_eq in Hk. subst k'.
+      pose proof (Honly _ Hx) as Ho. apply existsb_exists in Ho. destruct Ho as [[x' k'] [Hq Heq]].
+      cbn [fst snd] in Heq. apply andb_true_iff in Heq as [E1 E2].
+      apply String.eqb_eq in E1, E2. subst x' k'.
+      unfold own_pairs in Hq. apply in_flat_map in Hq. destruct Hq as [[k2 t2] [Hkt2 Hq]].
+      cbn [fst snd] in Hq. apply in_map_iff in Hq. destruct Hq as [a [E Ha]].
+      injection E as Ex Ek. subst k2.
+      assert (t2 = t) as ->.
+      { pose proof (assoc_in_nodup k t tasks NDt Hkt) as A1.
+        pose proof (assoc_in_nodup k t2 tasks NDt Hkt2) as A2. congruence. }
+      rewrite <- Ex. apply in_map.
+      apply (Permutation_in a (Permutation_sym (sort_by_perm (fun x => x) (t_aliases t)))). exact Ha.
+  - assert (forall l, (forall kc, In kc l -> In kc subs) ->
+              Forall2 entry_agrees
+                (flat_map (fun kc => rel_entries (snd kc) (path ++ [fst kc])) l)
+                (map fst (flat_map (fun kc => bindings (snd kc) (path ++ [fst kc])) l))) as H.
+    { induction l as [|kc l IHl]; intros Hl; [constructor|].
+      cbn [flat_map]. rewrite map_app. apply Forall2_app.
+      - apply IH; [apply Hl; left; reflexivity | apply Hwsubs, Hl; left; reflexivity
+                   | apply Hatsubs, Hl; left; reflexivity].
+      - apply IHl. intros x Hx. apply Hl; right; exact Hx. }
+    apply H. auto.
+Qed.
+
+Theorem nested_listing_spec c :
+  ns_wf c = true -> ns_canon c = true -> readable c = true -> alias_table_own c = true ->
+  exists ents, Permutation (nested_shown (nested_rows c []) []) ents /\
+               Forall2 entry_agrees ents (rel_expected c).
+Proof.
+  intros Hwf Hcan Hrd Hat. exists (rel_entries c []). split.
+  - apply nested_listing; assumption.
+  - apply rel_entries_bindings; assumption.
+Qed.
+
+Print Assumptions flat_listing.
+Print Assumptions flat_listed_once.
+Print Assumptions flat_listed_accepted.
+Print Assumptions listed_name_accepted.
+Print Assumptions nested_listing.
+Print Assumptions nested_listing_spec.
